@@ -78,6 +78,14 @@ func reg(p *propSpec) {
 }
 
 func init() {
+	reg(&propSpec{ID: "C09", Level: "fault_enumeration",
+		Batches: []batchSpec{
+			{Name: "sequential+races", World: "ports", Weight: 5},
+			{Name: "l2", World: "ports", Weight: 3, Park: 0.01, Gos: 0.02},
+		},
+		Stub: []string{"network (simnet)", "scripted clients (independent protocol implementation)", "users", "external port squatters", "clock"},
+		Rule: "one run = one seeded history of register/close/drop/squat/probe/race operations by 1-3 scripted clients against real frps with a drawn allowPorts set and quota, checked step by step against a reference allocator and against the ports simnet really has bound; distinct = distinct event-log hash; non-trivial = history ran to its end",
+	})
 	reg(&propSpec{ID: "C01", Level: "exploration",
 		Batches: []batchSpec{
 			{Name: "fault-free", World: "tunnel", Weight: 6},
